@@ -1,6 +1,7 @@
 (* Case types and boolean functions evaluated by the C09 correspondence harness. *)
 From Coq Require Import NArith List Bool String. Import ListNotations.
-From TP Require Export Base.PyVal Base.PyEq Schema.PyLiteral Schema.CodeGen Gen.EmitSites.
+From TP Require Export Base.PyVal Base.PyEq Schema.PyLiteral Schema.CodeGen Gen.EmitSites
+     Schema.ModuleGen Gen.ModuleLayout Schema.BackRequired.
 Local Open Scope N_scope.
 
 Definition opt_lex_eqb (a b : option (pystr * list N)) : bool :=
@@ -100,3 +101,93 @@ Definition site_payload (site s : pystr) : pystr :=
 (* the sites of the current table that are not safe for every string, with their witness strings *)
 Definition unsafe_sites : list (pystr * quoting) :=
   filter (fun p => negb (discipline_total (snd p))) emit_sites.
+
+(* ---- stream "module": definitions + main class through write_code_from_schema (GENERATED layout
+   Gen/ModuleLayout.v).
+   txt = the text of the written file (None: the generator raised);
+   ran = None: the file was not executed (or failed for another reason than a NameError);
+         Some None: it executed to the end; Some (Some n): it raised NameError on name n. *)
+Definition modcase := (list jclass * jclass * option (list N) * option (option pystr))%type.
+
+Definition module_mismatch (printable : N -> bool) (c : modcase) : bool :=
+  let '(defs, main, obs, ran) := c in
+  match module_toks module_layout defs_joiner defs main, obs with
+  | Some toks, Some txt => negb (pystr_eqb (render printable emit_sites toks) txt)
+  | None, None => false
+  | _, _ => true
+  end.
+
+Definition opt_str_eqb (a b : option pystr) : bool :=
+  match a, b with
+  | Some x, Some y => pystr_eqb x y
+  | None, None => true
+  | _, _ => false
+  end.
+
+(* the model's name resolution over the class statements of the generated layout against what CPython did *)
+Definition module_names_mismatch (c : modcase) : bool :=
+  let '(defs, main, obs, ran) := c in
+  match ran with
+  | Some r => negb (opt_str_eqb (first_unbound [] (module_classes module_layout defs main)) r)
+              || negb (Bool.eqb (module_names_ok [] module_layout defs main)
+                                (match r with None => true | Some _ => false end))
+  | None => false
+  end.
+
+Definition module_predicted_ok (c : modcase) : bool :=
+  let '(defs, main, obs, ran) := c in module_names_ok [] module_layout defs main.
+
+Definition module_bad_sep (c : modcase) : bool :=
+  let '(defs, main, obs, ran) := c in
+  match module_toks module_layout defs_joiner defs main with
+  | Some toks => negb (well_sep toks)
+  | None => false
+  end.
+
+(* the module's text, tokenised along the generator's layout by the lexer model, gives back the schema's strings *)
+Definition module_real_relex_ok (c : modcase) : bool :=
+  let '(defs, main, obs, ran) := c in
+  match module_toks module_layout defs_joiner defs main, obs with
+  | Some toks, Some txt =>
+      match relex py_keywords emit_sites (map shape_of toks) txt with
+      | Some l => forallb (fun p => pystr_eqb (fst p) (snd p)) (combine l (leaves toks))
+                  && Nat.eqb (List.length l) (List.length (leaves toks))
+      | None => false
+      end
+  | _, _ => false
+  end.
+
+Definition module_sites_predicted_ok (c : modcase) : bool :=
+  let '(defs, main, obs, ran) := c in
+  match module_toks module_layout defs_joiner defs main with
+  | Some toks => all_sites_ok py_keywords emit_sites toks
+  | None => false
+  end.
+
+(* ---- the required list across the round trip: obs = the "required" structure_to_schema returned for the
+   class built from the generated source *)
+Definition reqcase := (jclass * list pystr)%type.
+
+Definition required_mismatch (c : reqcase) : bool :=
+  let '(cls, obs) := c in
+  match roundtrip_required cls with
+  | Some r => negb (same_members r obs)
+  | None => true
+  end.
+
+Fixpoint nodupb (l : list pystr) : bool :=
+  match l with [] => true | x :: t => negb (str_in x t) && nodupb t end.
+
+(* the hypotheses of C09_required_roundtrip *)
+Definition required_hypotheses (c : reqcase) : bool :=
+  let '(cls, obs) := c in
+  match c_required cls with
+  | Some req => nodupb req && forallb (fun x => str_in x req) (defaulted (c_props cls))
+  | None => false
+  end.
+
+(* ... and its conclusion, on what the implementation returned *)
+Definition required_theorem_violated (c : reqcase) : bool :=
+  let '(cls, obs) := c in
+  required_hypotheses c &&
+  match c_required cls with Some req => negb (same_members obs req) | None => false end.
